@@ -1016,3 +1016,120 @@ Proof.
       (r & d & Ep & Ed & Hf & Hn & Hcw & Hch & _ & _ & Han & Dan & _).
     exists r, d. repeat split; try assumption; try lia; try congruence.
 Qed.
+
+(** ** Canvas area at or above MaxImageArea: both parsers reject
+    (container.Parser.parseVP8X always did; mux.Demuxer.parseExtended since commit 07b7141) *)
+Lemma g_anim_head file :
+  RiffGrammar.wf file = true -> g_is_anim file = true ->
+  exists body flags cw ch rest1,
+    file = le32 FourCCRIFF ++ le32 (4 + len body) ++ le32 FourCCWEBP ++ body /\
+    body = chunk FourCCVP8X (vp8x_payload flags cw ch) ++ rest1 /\
+    0 <= flags < 64 /\ Z.land flags 4294967233 = 0 /\
+    1 <= cw <= 16777216 /\ 1 <= ch <= 16777216 /\ g_canvas_area file = cw * ch /\
+    0 <= 4 + len body < 4294967296.
+Proof.
+  intros Hg Han.
+  destruct tag_consts as (_ & _ & _ & _ & TX & _).
+  destruct fourcc_ranges as (RX & _).
+  destruct file as [|r0 [|r1 [|r2 [|r3 [|s0 [|s1 [|s2 [|s3 [|w0 [|w1 [|w2 [|w3 body]]]]]]]]]]]]; try discriminate.
+  rewrite g_wf_unfold in Hg. rewrite !andb_true_iff in Hg.
+  destruct Hg as ((((HR & HW) & Hsz) & Hfa) & Hlay).
+  apply bytes_eqb_eq in HR, HW. injection HR as -> -> -> ->. injection HW as -> -> -> ->.
+  apply Z.eqb_eq in Hsz. change (G.glen body) with (len body) in Hsz.
+  apply forallb_bytes in Hfa.
+  assert (Hbody : bytes_ok body /\ is_byte s0 /\ is_byte s1 /\ is_byte s2 /\ is_byte s3).
+  { unfold bytes_ok in Hfa.
+    repeat match goal with Hf : Forall is_byte (_ :: _) |- _ => inversion Hf; subst; clear Hf end. auto. }
+  destruct Hbody as (Hbody & B0 & B1 & B2 & B3).
+  destruct (G.chunks (length body) body) as [gcs|] eqn:Ech; [|discriminate].
+  destruct (walk_of_chunks _ _ _ Hbody Ech) as (cs & -> & Hwalk).
+  pose proof (walk_ids_ok _ _ _ Hbody Hwalk) as Hids.
+  assert (Hfile : [82; 73; 70; 70; s0; s1; s2; s3; 87; 69; 66; 80] ++ body =
+                  le32 FourCCRIFF ++ le32 (4 + len body) ++ le32 FourCCWEBP ++ body).
+  { rewrite <- Hsz. rewrite (le32_rd32 s0 s1 s2 s3 B0 B1 B2 B3). reflexivity. }
+  change (82 :: 73 :: 70 :: 70 :: s0 :: s1 :: s2 :: s3 :: 87 :: 69 :: 66 :: 80 :: body)
+    with ([82; 73; 70; 70; s0; s1; s2; s3; 87; 69; 66; 80] ++ body) in *.
+  destruct cs as [|[x p] rest]; [discriminate|].
+  pose proof (Forall_inv Hids) as [Hx Hp]. cbn [fst snd] in Hx, Hp.
+  destruct (walk_cons_inv _ _ _ _ _ Hbody Hwalk) as (rest1 & fu1 & Eb1 & _).
+  assert (Ex : x = FourCCVP8X).
+  { rewrite Eb1 in Han. apply (g_is_anim_tag [82; 73; 70; 70; s0; s1; s2; s3; 87; 69; 66; 80] x p rest1 eq_refl Hx Han). }
+  subst x. cbn [map conv fst snd g_layout] in Hlay. rewrite TX, bytes_eqb_refl in Hlay.
+  unfold G.ext_ok in Hlay. cbv zeta in Hlay.
+  destruct p as [|flags [|q1 [|q2 [|q3 [|c0 [|c1 [|c2 [|e0 [|e1 [|e2 [|? ?]]]]]]]]]]]; try discriminate.
+  destruct (G.take_opt G.T_ICCP (map conv rest)) as [icc0 cs1].
+  rewrite !andb_true_iff in Hlay.
+  destruct Hlay as ((((((Hm & H64) & Hq1) & Hq2) & Hq3) & _) & _).
+  apply Z.eqb_eq in Hm, H64, Hq1, Hq2, Hq3. subst q1 q2 q3.
+  assert (Hfb : is_byte flags /\ is_byte c0 /\ is_byte c1 /\ is_byte c2 /\ is_byte e0 /\ is_byte e1 /\ is_byte e2).
+  { unfold bytes_ok in Hp.
+    repeat match goal with Hf : Forall is_byte (_ :: _) |- _ => inversion Hf; subst; clear Hf end. auto 10. }
+  destruct Hfb as (Bf & C0 & C1 & C2 & D0 & D1 & D2).
+  destruct (flags_facts_even flags Bf Hm H64) as (Hf64 & Hland).
+  set (cw := 1 + rd24 [c0; c1; c2]). set (ch := 1 + rd24 [e0; e1; e2]).
+  assert (Hcwr : 1 <= cw <= 16777216) by (subst cw; unfold rd24, is_byte in *; lia).
+  assert (Hchr : 1 <= ch <= 16777216) by (subst ch; unfold rd24, is_byte in *; lia).
+  assert (Hpay : [flags; 0; 0; 0; c0; c1; c2; e0; e1; e2] = vp8x_payload flags cw ch).
+  { unfold vp8x_payload. replace (cw - 1) with (rd24 [c0; c1; c2]) by (subst cw; lia).
+    replace (ch - 1) with (rd24 [e0; e1; e2]) by (subst ch; lia).
+    rewrite (le24_rd24 c0 c1 c2 C0 C1 C2), (le24_rd24 e0 e1 e2 D0 D1 D2).
+    assert (Hle : le32 flags = [flags; 0; 0; 0]).
+    { unfold le32. replace (flags mod 256) with flags by lia. replace ((flags / 256) mod 256) with 0 by lia.
+      replace ((flags / 65536) mod 256) with 0 by lia. replace ((flags / 16777216) mod 256) with 0 by lia.
+      reflexivity. }
+    rewrite Hle. reflexivity. }
+  exists body, flags, cw, ch, rest1.
+  split; [exact Hfile|]. split; [rewrite <- Hpay; exact Eb1|].
+  split; [exact Hf64|]. split; [exact Hland|]. split; [exact Hcwr|]. split; [exact Hchr|].
+  split.
+  - unfold g_canvas_area. rewrite Eb1. unfold chunk, le32. cbn [app skipn]. reflexivity.
+  - pose proof (rd32_bound s0 s1 s2 s3 [] B0 B1 B2 B3). lia.
+Qed.
+
+Definition big_canvas_both_reject_statement : Prop :=
+  forall fx bs,
+    RiffGrammar.wf bs = true -> g_is_anim bs = true -> len bs <= MaxMetadataSize ->
+    MaxImageArea <= g_canvas_area bs ->
+    parse fx bs = Err EInvalidImage /\ D.parse true bs = Err D.E_vp8x.
+
+Theorem big_canvas_both_reject : big_canvas_both_reject_statement.
+Proof.
+  intros fx file Hg Han Hlen Hbig.
+  destruct (g_anim_head file Hg Han) as (body & flags & cw & ch & rest1 & Hfile & Eb1 & Hf64 & Hland & Hcw & Hch & Harea & Hrs).
+  rewrite Harea in Hbig. destruct fourcc_ranges as (HX & _).
+  assert (Hlb : len file = 12 + len body) by (rewrite Hfile, !len_app, !len_le32; lia).
+  unfold MaxMetadataSize in Hlen. pose proof (len_nonneg body).
+  assert (Hlen10 : len (vp8x_payload flags cw ch) = 10) by reflexivity.
+  assert (Hl18 : len (chunk FourCCVP8X (vp8x_payload flags cw ch)) = 18) by reflexivity.
+  pose proof (len_nonneg rest1).
+  split.
+  - unfold parse. rewrite Hfile.
+    assert (Hb18 : 18 <= len body) by (rewrite Eb1, len_app, Hl18; lia).
+    rewrite (parse_ex_written fx (4 + len body) body FourCCVP8X (vp8x_payload flags cw ch) rest1 eq_refl
+               ltac:(unfold MaxChunkPayload; lia) Eb1 HX).
+    change (FourCCVP8X =? FourCCVP8X) with true. cbv iota. rewrite Eb1.
+    unfold parse_vp8x.
+    rewrite read_header_chunk by (rewrite ?Hlen10; unfold MaxChunkPayload; lia). cbn [bind].
+    rewrite Hlen10. unfold VP8XChunkSize, ChunkHeaderSize. change (negb (10 =? 10)) with false. cbv iota.
+    change (10 mod 2) with 0. change (8 + (10 + 0)) with 18. change (8 + 10) with 18.
+    destruct (Z.gtb_spec 18 (len (chunk FourCCVP8X (vp8x_payload flags cw ch) ++ rest1))) as [Hgt|_];
+      [rewrite len_app, Hl18 in Hgt; lia|].
+    change 18 with (8 + len (vp8x_payload flags cw ch)) at 1. rewrite payload_of_chunk. cbn [bind].
+    rewrite (vp8x_payload_explicit flags cw ch Hf64) at 1. cbv iota.
+    rewrite Hland. change (negb (0 =? 0)) with false. cbv iota.
+    rewrite !rd24_le24' by lia.
+    replace (1 + (cw - 1)) with cw by lia. replace (1 + (ch - 1)) with ch by lia.
+    destruct (Z.geb_spec (cw * ch) MaxImageArea); [reflexivity|lia].
+  - rewrite Hfile.
+    rewrite (d_parse_written (4 + len body) body FourCCVP8X (vp8x_payload flags cw ch) rest1 eq_refl Hrs Eb1 HX).
+    change (FourCCVP8X =? D.FCC_VP8X) with true. cbv iota. rewrite Eb1.
+    unfold D.parse_extended.
+    rewrite d_read_chunk by (exact HX || (rewrite Hlen10; lia)).
+    cbn [bind D.c_size D.c_data]. rewrite Hlen10.
+    unfold D.VP8XChunkSize. change (10 <? 10) with false. cbv iota.
+    rewrite (vp8x_payload_explicit flags cw ch Hf64) at 1. cbv iota.
+    assert (Hcw' : (cw - 1) mod 256 + 256 * (((cw - 1) / 256) mod 256) + 65536 * (((cw - 1) / 65536) mod 256) + 1 = cw) by lia.
+    assert (Hch' : (ch - 1) mod 256 + 256 * (((ch - 1) / 256) mod 256) + 65536 * (((ch - 1) / 65536) mod 256) + 1 = ch) by lia.
+    rewrite Hcw', Hch'. unfold D.MaxImageArea. unfold MaxImageArea in Hbig.
+    destruct (Z.geb_spec (cw * ch) 1073741824); [reflexivity|lia].
+Qed.
